@@ -582,7 +582,7 @@ def c16(tier):
     uw = node_unwind(2)
     uw.update(lss_unwind())
     uw.update({'COTmrDelete': 5, 'COTmrInsert': 5, 'COTmrRemove': 6, 'COTmrProcess': 5, 'COTmrReset': 5, 'CoVerifTmrPool': 5, 'COTmrClear': 4,
-               'COSyncInit': 4, 'COSyncHandler': 4, 'COSyncUpdate': 4, 'COTPdoGetMap': 10, 'COTPdoTx': 10, 'CORPdoReset': 10, 'CORPdoGetMap': 10, 'COEmcyReset': 6})
+               'COSyncInit': 4, 'COSyncHandler': 4, 'COSyncUpdate': 4, 'COTPdoGetMap': 10, 'COTPdoTx': 10, 'CORPdoReset': 10, 'CORPdoGetMap': 10, 'COEmcyReset': 6, 'prod_cycle': 6})
     for op in (0, 1):
         for freq in (100, 1000, 1000000):
             defs = dict(NODE_DEFS)
@@ -681,7 +681,12 @@ def c13(tier):
 
 
 def c14(tier):
-    out = []
+    # the configuration a client left behind takes effect exactly as stored when the PDO is re-validated / the node started
+    out = [tpdo_inst('aw_ab', 'NVMUG', 0, 0, 254, map2=()), tpdo_inst('aw_ab', 'NGVMUGO', 0, 0, 254, map2=()), tpdo_inst('aw_ab', 'VMUNG', 0, 0, 254, map2=()),
+           tpdo_inst('aw_ab', 'NVMUGo', 0, 0, 254, map2=(link(0x2105, 0, 32), link(0x2103, 0, 8), link(0x2101, 0, 16))),
+           tpdo_inst('aw_ab', 'NVMUOo', 0, 0, 254, vals=(2, 3, 2, 3, 2, 3, 2, 3, 2, 3, 2, 3)),
+           tpdo_inst('aw_ab', 'NPVKUNYYG', 0, 0, 2, type2=255), tpdo_inst('aw_ab', 'NPVKUNYYY', 0, 0, 255, type2=1), tpdo_inst('aw_ab', 'NVKUYYYY', 0, 0, 2, type2=255),
+           rpdo_inst('b_d16_w'), rpdo_inst('b_l3_w', t0=1, seq='RS')]
     uw = node_unwind(2)
     uw.update(lss_unwind())
     uw.update({'COSyncInit': 4, 'COSyncHandler': 4, 'COSyncUpdate': 4, 'COSyncRx': 9, 'CORPdoCheck': 4, 'CORPdoReset': 10, 'CORPdoWrite': 10, 'CORPdoGetMap': 10,
